@@ -27,8 +27,8 @@ def run(chk):
                   'seal': 'collect_proposer_action_fee; the three melmint settlement functions on 1-2 requests against an arbitrary '
                           'pool (reserves, liquidity in [1, 2^127]) or a new pool; the fee-multiplier step is C17',
                   'premise': 'P-SUPPLY: every total (per denomination, fee pool + tips, reserves) <= 2^127; outputs <= 2^120'}
-    chk.assume_note('NOT covered: create_builtins / process_pegging / apply_tip_909 (their PoolState calls are covered by the C16 '
-                    'lemmas, their `unwrap`s of the built-in pools by the C16 existence claim only informally); panics inside '
+    chk.assume_note('NOT covered: create_builtins (its PoolState::deposit on an empty pool is the C16 first-deposit lemma; process_pegging and '
+                    'apply_tip_909 ARE run here, on states holding the built-in pools with non-zero reserves -- C16); panics inside '
                     'dependencies other than the one melpow indexing class below (novasmt, bincode, imbl are trusted); memory '
                     'exhaustion; wall-clock bounds')
     chk.assume_note('melpow::Proof::verify indexes `self.0[&Node::new_zero()]` before looking at anything else (melpow 0.1.2, '
@@ -225,6 +225,9 @@ def seal_kernels(chk, it):
         c15.WEAK_POOLS[0] = False
     try:
         chk.guard(pegging_kernel, chk, it)
+        # the TIP-909 subsidy step of seal: its two swap_many calls on the built-in pools and the fee-pool addition
+        from props import c01
+        chk.guard(c01.subsidy_kernel, chk, it, mode='panic')
     finally:
         BM.CONFIG['symbolic_ops'] = False
         it.arith_feasibility = False
